@@ -591,3 +591,4 @@ MANIFEST = {
 MANIFEST["text"] += ' Also: the batcher is built after the reset has re-installed the generator; zero_grad_all / step_schedulers / set_schedulers dispatch to the same models as step_optimizers (R6).'
 MANIFEST["text"] += ' Receivers of the per-model dispatchers are resolved through `for m in (self.a, self.b): m.f()`; a strict subset of the stepped models is a definite verdict.'
 MANIFEST["text"] += " Every store to _rng_seed stores the seed unreduced (a `% 2**32` belongs at torch's manual_seed, not in the attribute the numpy generator is rebuilt from)."
+MANIFEST["text"] += ' R4 also: every definition of the batcher iterated in reconstruct is the SimpleBatcher built in this call (an object kept on self from an earlier call holds the pre-reset generator).'
